@@ -4,6 +4,8 @@ package main
 
 import (
 	"fmt"
+	"os"
+	"runtime"
 	"go/token"
 	"go/types"
 	"sort"
@@ -96,6 +98,13 @@ func (fx *FnExec) call(fr *frame, st *State, res ssa.Value, cc *ssa.CallCommon) 
 	}
 	c := fx.c
 	st.ghost["call|"+key+"|called"] = c.True()
+	seq, okq := st.ghost["callseq"].(*Term)
+	if !okq {
+		seq = fx.bv64(0)
+	}
+	seq = c.BVBin("bvadd", seq, fx.bv64(1))
+	st.ghost["callseq"] = seq
+	st.ghost["call|"+key+"|seq"] = seq
 	cnt, ok := st.ghost["call|"+key+"|count"].(*Term)
 	if !ok {
 		cnt = fx.bv64(0)
@@ -146,6 +155,22 @@ func (fx *FnExec) call0(fr *frame, st *State, res ssa.Value, cc *ssa.CallCommon)
 			if !fx.opts.NoSafety {
 				nn := fx.c.Not(fx.c.Eq(iv.Tag, fx.c.BVInt(0, 32)))
 				st.pc = fx.c.And(st.pc, nn)
+			}
+			// devirtualise when the dynamic type is known
+			if iv.Tag.Op == "bv" && iv.Tag.Val.IsInt64() {
+				if ct := fx.eng.typeOfTag(int(iv.Tag.Val.Int64())); ct != nil {
+					if sel := fx.eng.prog.MethodSets.MethodSet(ct).Lookup(cc.Method.Pkg(), cc.Method.Name()); sel != nil {
+						if m := fx.eng.prog.MethodValue(sel); m != nil {
+							var rv Val
+							if p, isP := under(ct).(*types.Pointer); isP {
+								rv = fx.ptrFromRef(p.Elem(), iv.Ref)
+							} else {
+								rv = fx.unbox(st, ct, iv.Ref)
+							}
+							return fx.staticCall(fr, st, m, append([]Val{rv}, args...), rt, pos)
+						}
+					}
+				}
 			}
 		}
 		if fc := fx.eng.db.Funcs[key]; fc != nil {
@@ -227,9 +252,7 @@ func (fx *FnExec) staticCall(fr *frame, st *State, callee *ssa.Function, args []
 		if callee.Signature.Recv() != nil {
 			recv, a = args[0], args[1:]
 		}
-		if len(fc.Logical) == 0 || fc.Assumed {
-			return fx.applyContract(fr, st, fc, callee, recv, a, callee.Signature, rt, pos, key)
-		}
+		return fx.applyContract(fr, st, fc, callee, recv, a, callee.Signature, rt, pos, key)
 	}
 	// logging and formatting
 	switch path {
@@ -386,6 +409,11 @@ func (fx *FnExec) escape(fr *frame, st *State, v Val) {
 
 func (fx *FnExec) nextEpoch() int {
 	fx.epoch++
+	if os.Getenv("HOPVC_DEBUG_EPOCH") != "" {
+		buf := make([]byte, 3000)
+		n := runtime.Stack(buf, false)
+		fmt.Fprintf(os.Stderr, "EPOCH %d\n%s\n", fx.epoch, buf[:n])
+	}
 	if fx.epochSerial == nil {
 		fx.epochSerial = map[int]int{}
 	}
@@ -977,7 +1005,7 @@ func (fx *FnExec) callEffects(fr *frame, cc *ssa.CallCommon, li *loopInfo, addrE
 	if fc != nil && fc.Pure {
 		return
 	}
-	if fc != nil && !fc.Inline && !fc.ModAll && len(fc.Modifies) > 0 && (len(fc.Logical) == 0 || fc.Assumed) {
+	if fc != nil && !fc.Inline && !fc.ModAll && len(fc.Modifies) > 0 {
 		// map contract names to argument values
 		argOf := map[string]ssa.Value{}
 		args := cc.Args
